@@ -7,18 +7,23 @@ LEVEL_TEXT = ('On the sphere lattice m12 = R sin(a12), M12 = M21 = cos(a12) and 
               'in SphereLattice.tla; TLC enumerates the lattice and the direct, inverse and line interfaces of all three solver kinds are replayed '
               'and validated.  On the ellipsoid family TLC validates interface agreement, reversal (M12/M21 exchanged, S12 negated), the published '
               'addition rules at random split points, polygon closure modulo the ellipsoid area, series = exact, the symmetry group (GeodSym.tla) '
-              'and the closed-form ellipsoid area for Geodesic, GeodesicExact, Rhumb and Ellipsoid.')
+              'and the closed-form ellipsoid area for Geodesic, GeodesicExact, Rhumb and Ellipsoid.  S12 of the exact solver is compared with its '
+              'definition (quadrature of q(phi) dlambda along the line, closed-form q) on the base family, on b/a = 2^k and on the walk over 393 '
+              'ellipsoids n = j/200; exact=true must reproduce the exact solver bit for bit in every output; every overload returning m12, M12, M21 '
+              'or S12 must write what the general call writes (GeodOverloads.tla); short lines carry the area obligation without the m12 term.')
 DESIGN_REF = 'DESIGN.md section 4, C03'
-LEVEL_NOTE = ('Trusted: TLC, SphereLattice.tla, GeodSym.tla. The area clause is judged at the documented position accuracy including its conditioning in '
-              '1/cos(lat); series-vs-exact area agreement is stated only for |f| <= 0.01, where the series accuracy is documented.')
+LEVEL_NOTE = ('Trusted: TLC, SphereLattice.tla, GeodSym.tla, GeodOverloads.tla, the closed form q(phi) and the Gauss-Legendre rule in the driver. The area clause '
+              'is judged at the documented position accuracy including its conditioning (1/cos(lat) on the base family, q/(N cos(lat)) elsewhere); '
+              'series-vs-exact area agreement is stated only for |f| <= 0.01, where the series accuracy is documented; m12 / M12 / M21 on the '
+              'eccentric ellipsoids are judged through bit-for-bit identities and m12 laws conditioned by max(|M12|, |M21|).')
 TECHNIQUE = 'TLA+ lattice model + TLC enumeration, spec-to-code replay, TLC trace validation of laws'
 RULE = ('lattice direct and inverse problems (m12, M12, M21, S12 fields) replayed on all solver/interface configurations; seeded random direct, '
         'inverse (all regimes, 8 symmetry group elements each) and three-point addition-rule records. distinct_nontrivial = lattice vectors.')
-TRUSTED = ['TLC', 'SphereLattice.tla', 'GeodSym.tla', 'drv_geod.cpp']
+TRUSTED = ['TLC', 'SphereLattice.tla', 'GeodSym.tla', 'GeodOverloads.tla', 'drv_geod.cpp (closed-form area integrand, 8-point Gauss-Legendre rule)']
 
 
 def run(ctx):
-    geod_common.run(ctx, 'C03', ['dir', 'inv'], [('dl', 8000, 400000), ('il', 6000, 300000), ('al', 10000, 500000)])
+    geod_common.run(ctx, 'C03', ['dir', 'inv', 'ell'], [('dl', 8000, 400000), ('dx', 3000, 100000), ('il', 6000, 300000), ('ix', 3000, 100000), ('al', 10000, 500000), ('ax', 3000, 100000)])
     return ctx.finish(RULE, TRUSTED)
 
 
